@@ -30,6 +30,15 @@ def roundtrip(ctx, pid, enc_cases, rule, model_limit=200000, extra_lines=None):
             pad = b"" if meth == "-pm1-" else bytes(rnd.randrange(256) for _ in range(rnd.choice([0, 0, 3])))
             if meth == "-pm1-" and rnd.random() < 0.3:
                 pad = bytes(rnd.choice([0, 1, 4]))
+            if meth == "-pm1-":
+                # the zero-extension rule: a stream whose trailing zero bytes are missing (all of them, or some) decodes
+                # to the same output -- the decoder continues with zero bits for as long as it takes
+                z = len(stream) - len(stream.rstrip(b"\0"))
+                r = rnd.random()
+                if z and r < 0.45:
+                    stream, pad = stream[:len(stream) - z], b""
+                elif z > 1 and r < 0.6:
+                    stream, pad = stream[:len(stream) - rnd.randrange(1, z)], b""
             reads = rnd.choice(decgen.read_schedules(rnd, n)) if n < 200000 else "%d" % (n + 5)
             chunks = rnd.choice(["-", "-", "1", "3", "4096"])
             lines.append(decgen.case(meth, stream + pad, chunks, n, reads, rnd.choice([-1, 0])))
